@@ -110,6 +110,20 @@ def classify_exc(exc):
     return ("exc", type(exc).__name__, msg[:300])
 
 
+REUSE_MOD = 4  # one call in four (chosen by a hash of the rule text and the modes, so a replay makes the same choice)
+
+
+def _reuse_selected(rule_path, mode, search, only_addr):
+    import zlib
+
+    try:
+        with open(rule_path, "rb") as f:
+            h = zlib.crc32(f.read())
+    except OSError:
+        return False
+    return (h + zlib.crc32(f"{mode}|{search}|{only_addr}".encode())) % REUSE_MOD == 0
+
+
 def match_files(rule_path, input_path, mode="list", search="all", only_addr=False, macros=None, binary=False, want_regex=False):
     try:
         mop = MasterOfPuppets(
@@ -124,6 +138,13 @@ def match_files(rule_path, input_path, mode="list", search="all", only_addr=Fals
             )
         )
         res = mop.perform_matching()
+        if REUSE_MOD and _reuse_selected(rule_path, mode, search, only_addr):
+            # Asking the same MasterOfPuppets again must give the same answer (C14: repeating an operation gives the same
+            # result; holds on the pinned tree for every mode).  A difference is reported as an exception outcome, which
+            # every check treats as a deviation.
+            res2 = mop.perform_matching()
+            if res2 != res:
+                return ("exc", "SecondCallOnSameInstanceDiffers", ("first=%r second=%r" % (res, res2))[:300])
     except (Exception, AssertionError) as exc:  # noqa: BLE001 - outcome classification is the point
         return classify_exc(exc)
     if want_regex:
